@@ -24,7 +24,7 @@ RULE = (
     "tree/path/setup methods of hyper.py is a yield point). Quick: the "
     "one-preemption schedules of each case (all, or a stride of <=80) + "
     "drawn two-preemption ones; thorough: ALL one-preemption schedules and "
-    "all two-preemption ones (a stride of <=6000 pairs beyond ~110 yield "
+    "all two-preemption ones (a stride of <=3000 pairs beyond ~78 yield "
     "points). Oracle: every returned "
     "tree is complete and has the N/inputs/output/sizes of ITS query; every "
     "returned path is valid for its query. Non-trivial = sequence with >=2 "
@@ -493,10 +493,10 @@ def run_sched(spec, state=None, tier="quick"):
             scheds = scheds[off::stride]
         if tier == "thorough":
             pairs = [list(c) for c in itertools.combinations(range(1, steps + 1), 2)]
-            if len(pairs) > 6000:
-                # beyond ~110 yield points: a deterministic stride through the
+            if len(pairs) > 3000:
+                # beyond ~78 yield points: a deterministic stride through the
                 # two-preemption schedules instead of all of them
-                stride = -(-len(pairs) // 6000)
+                stride = -(-len(pairs) // 3000)
                 off = (spec.get("deep") or [(0, 0)])[0][1] % stride
                 pairs = pairs[off::stride]
             scheds += pairs
